@@ -4,7 +4,9 @@ import (
 	"fmt"
 	"os"
 	"path/filepath"
+	"runtime"
 	"strings"
+	"sync"
 	"sync/atomic"
 	"time"
 
@@ -18,11 +20,133 @@ func init() { cmds["lock"] = runLock }
 // runLock (C13): statements against the real 100 ms flush timer.  A hook parks a statement inside
 // its log append for several ticks and counts page/header writes seen meanwhile (must be none);
 // built with -race, the Go race detector reports unsynchronised accesses (log read back at the end).
+// goid: the number of the calling goroutine (first line of its stack trace)
+func goid() int64 {
+	var buf [64]byte
+	n := runtime.Stack(buf[:], false)
+	var id int64
+	fmt.Sscanf(string(buf[:n]), "goroutine %d ", &id)
+	return id
+}
+
+// lockTrace records the hook events of one real execution - open, statements of every kind across a
+// dozen timer ticks, Close from another goroutine, a pause in which a flusher left alive would write -
+// with the goroutine that raised each, in the order the hooks were called.  The Lean driver replays the
+// trace in the model of the synchronisation discipline (Model/LockSys.lean under the facts extracted
+// from the source): it must be a run of the model - every implied lock action enabled, no bad event.
+func lockTrace(cfg *config, id int, seed uint64) {
+	cfg.tr.Case(id)
+	name := fmt.Sprintf("lt%d", id)
+	if err := storage.CreateDB(name); err != nil {
+		return
+	}
+	type ev struct{ role, kind string }
+	var mu sync.Mutex
+	var evs []ev
+	rec := func(role, kind string) {
+		mu.Lock()
+		evs = append(evs, ev{role, kind})
+		mu.Unlock()
+	}
+	sessG := goid()
+	var closerG int64
+	walSeen := false
+	storage.VerifSetHook(func(e string, arg uint64) {
+		g := goid()
+		role := "F"
+		if g == sessG {
+			role = "S"
+		} else if g == atomic.LoadInt64(&closerG) {
+			role = "K"
+		}
+		switch {
+		case e == "store.open":
+			rec(role, "open.begin")
+		case e == "txn.begin":
+			if role == "S" {
+				walSeen = false
+			}
+			rec(role, "txn.begin")
+		case e == "txn.end":
+			rec(role, "txn.end")
+		case strings.HasPrefix(e, "wal."):
+			if role == "S" && !walSeen {
+				walSeen = true
+				rec("S", "wal")
+			}
+		case e == "ddl.changed" || e == "page.write" || e == "hdr.write":
+			rec(role, e)
+		}
+	})
+	defer storage.VerifSetHook(nil)
+	r := hx.NewRng(seed)
+	sess := &engine.Session{}
+	if err := sess.ExecQuery("USE " + name); err != nil {
+		return
+	}
+	rec("S", "open.end")
+	exec := func(q string) {
+		hx.Catch(func() { sess.ExecQuery(q) })
+		rec("S", "stmt.end")
+	}
+	exec("CREATE TABLE t1 (a int, b varchar(255))")
+	key := 0
+	for i := 0; i < 45; i++ {
+		switch r.Intn(9) {
+		case 0:
+			exec(fmt.Sprintf("CREATE TABLE x%d (a int)", i))
+		case 1, 2, 3:
+			var vs []string
+			for k, n := 0, r.Range(1, 40); k < n; k++ {
+				vs = append(vs, fmt.Sprintf("(%d, 'row %d')", key, key))
+				key++
+			}
+			exec("INSERT INTO t1 VALUES " + strings.Join(vs, ", "))
+		case 4:
+			exec(fmt.Sprintf("UPDATE t1 SET b = 'u%d' WHERE a >= %d", i, r.Intn(key+1)))
+		case 5:
+			exec(fmt.Sprintf("DELETE FROM t1 WHERE a = %d", r.Intn(key+1)))
+		case 6:
+			exec("SELECT * FROM t1")
+		case 7:
+			exec("INSERT INTO t1 VALUES (1, 2, 3)") // refused
+		default:
+			exec("CREATE TABLE t1 (a int)") // refused: exists
+		}
+		time.Sleep(time.Duration(r.Range(0, 60)) * time.Millisecond)
+	}
+	done := make(chan struct{})
+	go func() {
+		atomic.StoreInt64(&closerG, goid())
+		rec("K", "close.begin")
+		hx.Catch(func() { sess.Close() })
+		rec("K", "close.end")
+		close(done)
+	}()
+	select {
+	case <-done:
+	case <-time.After(10 * time.Second):
+	}
+	time.Sleep(250 * time.Millisecond) // a flusher left alive would write now
+	storage.VerifSetHook(nil)
+	mu.Lock()
+	defer mu.Unlock()
+	for _, e := range evs {
+		cfg.tr.Op("ev %s %s", e.role, e.kind)
+		cfg.tr.Out("ok")
+	}
+	cfg.st.Add("trace-events", len(evs))
+	cfg.st.Inc("traces")
+}
+
 func runLock(cfg *config) {
 	wdog = hx.NewWatchdog(cfg.tr, 60*time.Second)
+	os.RemoveAll("data")
+	for i := 0; i < 2*cfg.scale; i++ {
+		lockTrace(cfg, cfg.nextID+100+i, cfg.seed*7+uint64(i))
+	}
 	id := cfg.nextID + 1
 	cfg.tr.Case(id)
-	os.RemoveAll("data")
 	// a CREATE DATABASE slowed down past several timer ticks (a slow disk): the flusher of the store
 	// being created runs beside it
 	var slowed int32
